@@ -493,6 +493,79 @@ def l2_case(case):
         nev += 1
         if not abs(got - fac * float(exact)) <= fac * EPS_L2 * bound:
             bad.append('%s integral of x^%d y^%d over the mesh = %r, exact %r (tolerance %.3g)' % (mode, i, j, got, fac * float(exact), fac * EPS_L2 * bound))
+    # (h) integrate_over_block on a proper, non-prefix subset of the elements; states and per-element parameters reach the integrand
+    def exact_mono(t, i, j):
+        return (t.integral(i, j), abs(float(Fr(t.jac, t.den ** 2))) * t.norm1(i, j)) if mode == 'cartesian' else \
+               (t.integral(i + 1, j), abs(float(Fr(t.jac, t.den ** 2))) * t.norm1(i + 1, j))
+    fac = 1.0 if mode == 'cartesian' else 2 * math.pi
+    if ne >= 2 and cand:
+        ksub = r.randrange(1, ne)
+        sub = sorted(r.sample(range(ne), ksub))
+        if sub == list(range(ksub)):
+            sub = list(range(ne - ksub, ne))
+        (i, j) = r.choice(cand)
+        func = (lambda u, gu, s, x, dt, i=i, j=j: x[0] ** i * x[1] ** j)
+        got = float(FunctionSpace.integrate_over_block(fs, Udummy, state, 0.0, func, jnp.asarray(sub)))
+        exact = sum(exact_mono(ex[e_], i, j)[0] for e_ in sub)
+        bound = sum(exact_mono(ex[e_], i, j)[1] for e_ in sub)
+        nev += 1
+        if not abs(got - fac * float(exact)) <= fac * EPS_L2 * bound:
+            bad.append('%s integral of x^%d y^%d over the element subset %r = %r, exact %r' % (mode, i, j, sub, got, fac * float(exact)))
+        # per-element parameter field
+        cpar = onp.array([r.choice([0.0, 1.0, r.uniform(-2, 2)]) for _ in range(ne)])
+        func = (lambda u, gu, s, x, dt, c, i=i, j=j: c * x[0] ** i * x[1] ** j)
+        got = float(FunctionSpace.integrate_over_block(fs, Udummy, state, 0.0, func, mesh.blocks['block'], jnp.asarray(cpar)))
+        exact = sum(Fr(float(cpar[e_])) * exact_mono(ex[e_], i, j)[0] for e_ in range(ne))
+        bound = sum(abs(float(cpar[e_])) * exact_mono(ex[e_], i, j)[1] for e_ in range(ne))
+        nev += 1
+        if not abs(got - fac * float(exact)) <= fac * EPS_L2 * bound + 1e-300:
+            bad.append('%s integral with a per-element parameter field: %r, exact %r' % (mode, got, fac * float(exact)))
+    # state variables: the value at every quadrature point of every element reaches the integrand
+    stR = onp.array([[[r.uniform(-1, 1)] for _ in range(len(w))] for _ in range(ne)])
+    got = float(FunctionSpace.integrate_over_block(fs, Udummy, jnp.asarray(stR), 0.0, (lambda u, gu, s, x, dt: s[0]), mesh.blocks['block']))
+    want = float((vols * stR[:, :, 0]).sum())
+    nev += 1
+    if not abs(got - want) <= 1e-12 * float(onp.abs(vols).sum()):
+        bad.append('integral of the state variable field is %r, sum of vols*state is %r' % (got, want))
+    # (i) the primal field and its gradient reach the integrand: int (U_0 + dU_1/dx) with polynomial nodal fields of degree <= min(p, dmax)
+    km = min(p, dmax)
+    if km >= 0:
+        a_ = r.randrange(0, km + 1); b_ = r.randrange(0, km + 1 - a_)
+        c_ = r.randrange(0, km + 1); e2 = r.randrange(0, km + 1 - c_)
+        U2 = onp.stack([X[:, 0] ** a_ * X[:, 1] ** b_, X[:, 0] ** c_ * X[:, 1] ** e2], axis=1)
+        func = (lambda u, gu, s, x, dt: u[0] + gu[1, 0])
+        got = float(FunctionSpace.integrate_over_block(fs, jnp.asarray(U2), state, 0.0, func, mesh.blocks['block']))
+        exact = Fr(0)
+        bound = 0.0
+        for t in ex:
+            v_, b0 = exact_mono(t, a_, b_)
+            exact += v_
+            bound += b0
+            if c_ > 0:
+                v_, b0 = exact_mono(t, c_ - 1, e2)
+                exact += c_ * v_
+                bound += c_ * b0 * float((Kx * onp.abs(jac)).max() + 1.0)
+        nev += 1
+        if not abs(got - fac * float(exact)) <= fac * EPS_L2 * 4 * bound + 1e-300:
+            bad.append('%s integral of U_0 + dU_1/dx with U = (x^%d y^%d, x^%d y^%d): %r, exact %r (tol %.3g)' % (mode, a_, b_, c_, e2, got, fac * float(exact), fac * EPS_L2 * 4 * bound))
+    # (j) projection of a quadrature field to element averages (volume-weighted): independent evaluation, and exact for polynomials
+    if cand:
+        (i, j) = r.choice(cand)
+        qf = Xq[:, :, 0] ** i * Xq[:, :, 1] ** j
+        qf2 = onp.stack([qf, 2.0 - qf], axis=2)
+        got = onp.asarray(FunctionSpace.project_quadrature_field_to_element_field(fs, jnp.asarray(qf)))
+        got2 = onp.asarray(FunctionSpace.project_quadrature_field_to_element_field(fs, jnp.asarray(qf2)))
+        want = (vols * qf).sum(axis=1) / vols.sum(axis=1)
+        nev += 2 * ne
+        scq = float(onp.abs(qf).max()) + 1.0
+        if not onp.abs(got - want).max() <= 1e-11 * scq or not onp.abs(got2[:, 0] - want).max() <= 1e-11 * scq or not onp.abs(got2[:, 1] - (2.0 - want)).max() <= 1e-11 * scq:
+            bad.append('project_quadrature_field_to_element_field is not the volume-weighted element average (max dev %.3g)' % float(onp.abs(got - want).max()))
+        if mode == 'cartesian':
+            for e_ in range(ne):
+                exact_avg = ex[e_].integral(i, j) / ex[e_].integral(0, 0)
+                if not abs(got[e_] - float(exact_avg)) <= 4 * EPS_L2 * ex[e_].norm1(i, j):
+                    bad.append('element average of x^%d y^%d on element %d is %r, exact %r' % (i, j, e_, float(got[e_]), float(exact_avg)))
+                    break
     # (g) divergence theorem on the boundary: sum_edges int F.n ds = sum_elements int div F dA,  F = (x^a y^b, x^c y^e)
     if mode == 'cartesian':
         d1 = case['degree1d']
@@ -521,6 +594,23 @@ def l2_case(case):
             nev += 1
             if not abs(got - float(exact)) <= tol:
                 bad.append('divergence theorem fails for F=(x^%d y^%d, x^%d y^%d) with 1-D degree %d: boundary flux %r, exact int div F %r (tol %.3g)' % (a, b, c, e_, d1, got, float(exact), tol))
+            # the nodal field interpolated on the edge must be evaluated at the same points as the position:
+            # oint u * y * n_x ds = int d(u y)/dx dA  with the nodal field u = x^au y^bu of degree <= min(p, d1 - 1)
+            ku = min(p, d1 - 1, 5)
+            if ku >= 0:
+                au = r.randrange(0, ku + 1); bu = r.randrange(0, ku + 1 - au)
+                Uu = X[:, 0] ** au * X[:, 1] ** bu
+                funcu = (lambda u, x, n: u * x[1] * n[0])
+                gotu = float(FunctionSpace.integrate_function_on_edges(fs, funcu, jnp.asarray(Uu), qr1, jnp.asarray(bnd)))
+                exactu, boundu = Fr(0), 0.0
+                if au > 0:
+                    for t in ex:
+                        exactu += au * t.integral(au - 1, bu + 1)
+                        boundu += au * abs(float(Fr(t.jac, t.den ** 2))) * t.norm1(au - 1, bu + 1)
+                tolu = EPS_L2 * (boundu + per * float(cx.max()) ** au * float(cy.max()) ** (bu + 1))
+                nev += 1
+                if not abs(gotu - float(exactu)) <= tolu:
+                    bad.append('edge integral of (interpolated nodal field u = x^%d y^%d) * y * n_x with 1-D degree %d: %r, exact %r (tol %.3g)' % (au, bu, d1, gotu, float(exactu), tolu))
             if p == 1 and not bub:
                 from optimism import Surface
                 f2 = (lambda x, n, a=a, b=b, c=c, e_=e_: x[0] ** a * x[1] ** b * n[0] + x[0] ** c * x[1] ** e_ * n[1])
@@ -756,7 +846,12 @@ def l2_cases(ctx, stream='l2', n=None):
         p, b = combos[k % len(combos)]
         cases.append(dict(kind=MESH_KINDS[k % len(MESH_KINDS)] if k < 2 * len(MESH_KINDS) else r.choice(MESH_KINDS),
                           mseed=r.randrange(1 << 30), order=p, bubble=b, degree=r.choice(DEG2D),
-                          mode='axisymmetric' if (k % 3 == 2) else 'cartesian', degree1d=r.choice(DEG1D)))
+                          mode='axisymmetric' if ((k + k // len(combos)) % 3 == 2) else 'cartesian', degree1d=r.choice(DEG1D)))
+    # axisymmetric sweep: every (order, bubble) combination in axisymmetric mode on a small structured mesh, in every tier
+    if stream == 'l2':
+        for (p, b) in combos:
+            cases.append(dict(kind='structured', mseed=r.randrange(1 << 30), order=p, bubble=b, degree=r.choice(DEG2D[1:]),
+                              mode='axisymmetric', degree1d=r.choice(DEG1D), sweep=True))
     for c in cases:
         if c['mode'] == 'axisymmetric' and c['degree'] < 2:
             c['degree'] = 2
